@@ -348,7 +348,7 @@ func Select(arr, idx *Term) *Term {
 		if cur.args[1] == idx {
 			return cur.args[2]
 		}
-		if cur.args[1].IsLit() && idx.IsLit() {
+		if (cur.args[1].IsLit() && idx.IsLit()) || distinctRefs(cur.args[1], idx) {
 			cur = cur.args[0]
 			continue
 		}
@@ -357,7 +357,46 @@ func Select(arr, idx *Term) *Term {
 	if cur.op == "constarr" {
 		return cur.args[0]
 	}
+	if cur.op == "ite" && selectDepth < 12 && (oldRef(idx) || idx.IsLit()) {
+		// reading an entry-time object through a merged heap: push the read into the branches
+		selectDepth++
+		a := Select(cur.args[1], idx)
+		b := Select(cur.args[2], idx)
+		selectDepth--
+		return Ite(cur.args[0], a, b)
+	}
 	return Op("select", e, cur, idx)
+}
+
+var selectDepth = 0
+
+// freshRef: a reference created by an allocation of the verified code: (+ A k) with k >= 1 and A
+// an allocation counter (alloc0, a later counter alloc.*, or again such a sum).
+func freshRef(t *Term) bool {
+	if t.sort != SInt || t.op != "+" || len(t.args) != 2 {
+		return false
+	}
+	k := t.args[1]
+	if !(k.IsLit() && k.val != nil && k.val.Sign() > 0) {
+		return false
+	}
+	a := t.args[0]
+	return allocTerm(a) || freshRef(a)
+}
+
+func allocTerm(a *Term) bool {
+	return a.op == "const" && (a.name == "alloc0" || strings.HasPrefix(a.name, "alloc."))
+}
+
+// oldRef: a reference that existed at function entry (parameter or package constant).
+func oldRef(t *Term) bool {
+	return t.sort == SInt && t.op == "const" && (strings.HasPrefix(t.name, "p!") || strings.HasPrefix(t.name, "gref!") || strings.HasPrefix(t.name, "gconst!"))
+}
+
+// distinctRefs: syntactically evident that two references differ (every allocation counter is
+// >= alloc0 and every entry-time reference is <= alloc0).
+func distinctRefs(a, b *Term) bool {
+	return (freshRef(a) && oldRef(b)) || (freshRef(b) && oldRef(a))
 }
 
 func Store(arr, idx, v *Term) *Term {
